@@ -474,12 +474,20 @@ pub fn finish(res: CheckResult, tier: Tier, started: Instant) -> i32 {
         "wall_s": started.elapsed().as_secs_f64(),
         "violations": unknown.len(),
     });
-    let evdir = verif_root().join("evidence");
+    // TTV_EVIDENCE_DIR: used by seeded/try.sh so that runs against a deliberately broken tree do
+    // not overwrite the evidence of the real one
+    let evdir = std::env::var("TTV_EVIDENCE_DIR").map(std::path::PathBuf::from).unwrap_or_else(|_| verif_root().join("evidence"));
     let _ = std::fs::create_dir_all(&evdir);
     let evpath = evdir.join(format!("{}.json", res.property));
     if let Err(e) = std::fs::write(&evpath, serde_json::to_string_pretty(&ev).unwrap() + "\n") {
         out(&format!("MACHINERY-ERROR cannot write evidence: {}", e));
         return 2;
+    }
+    // a thorough run also leaves a copy that the next quick run does not overwrite
+    if tier == Tier::Thorough {
+        let tdir = evdir.join("thorough");
+        let _ = std::fs::create_dir_all(&tdir);
+        let _ = std::fs::write(tdir.join(format!("{}.json", res.property)), serde_json::to_string_pretty(&ev).unwrap() + "\n");
     }
     out(&format!(
         "SUMMARY property={} tier={} violations={} known={} derived={} wall={:.1}s evidence={}",
